@@ -45,10 +45,10 @@ directive @optional on FIELD
 directive @recurse(depth: Int!) on FIELD
 directive @fold on FIELD
 directive @transform(op: String!) repeatable on FIELD
-type RootSchemaQuery { Item(limit: Int = 7, name: String = "abc", strict: Boolean = true, ratio: Float = 1.5, ids: [Int] = [1, null], req: Int!, opt: String): [Item!]  Special(only: [Boolean!]! = [true, false]): Special! }
-interface Item { name: String  size: Int!  tags: [String!]!  related(limit: Int! = 3, prefix: String, x: Int = 7, s: String = "abc", l: [Int] = [1, null], n: Int = null): [Item!]  parent(kind: String! = "x", depth: Int!): Item  plain: Item! }
-type Plain implements Item { name: String  size: Int!  tags: [String!]!  related(limit: Int! = 3, prefix: String, x: Int = 7, s: String = "abc", l: [Int] = [1, null], n: Int = null): [Item!]  parent(kind: String! = "x", depth: Int!): Item  plain: Item! }
-type Special implements Item { name: String  size: Int!  tags: [String!]!  related(limit: Int! = 3, prefix: String, x: Int = 7, s: String = "abc", l: [Int] = [1, null], n: Int = null): [Item!]  parent(kind: String! = "x", depth: Int!): Special  plain: Item!  extra: Float  flags(only: [Boolean!] = [true], ratio: Float = 2.5, f: Float! = 0.5): [Special!]! }
+type RootSchemaQuery { Item(limit: Int = 7, name: String = "abc", strict: Boolean = true, ratio: Float = 1.5, ids: [Int] = [1, null], req: Int!, opt: String, optlist: [Int!], optlist2: [[String]]): [Item!]  Special(only: [Boolean!]! = [true, false]): Special! }
+interface Item { name: String  size: Int!  tags: [String!]!  related(limit: Int! = 3, prefix: String, x: Int = 7, s: String = "abc", l: [Int] = [1, null], n: Int = null, optlist: [Int!], reqlist: [Int]!): [Item!]  parent(kind: String! = "x", depth: Int!): Item  plain: Item! }
+type Plain implements Item { name: String  size: Int!  tags: [String!]!  related(limit: Int! = 3, prefix: String, x: Int = 7, s: String = "abc", l: [Int] = [1, null], n: Int = null, optlist: [Int!], reqlist: [Int]!): [Item!]  parent(kind: String! = "x", depth: Int!): Item  plain: Item! }
+type Special implements Item { name: String  size: Int!  tags: [String!]!  related(limit: Int! = 3, prefix: String, x: Int = 7, s: String = "abc", l: [Int] = [1, null], n: Int = null, optlist: [Int!], reqlist: [Int]!): [Item!]  parent(kind: String! = "x", depth: Int!): Special  plain: Item!  extra: Float  flags(only: [Boolean!] = [true], ratio: Float = 2.5, f: Float! = 0.5): [Special!]! }
 "#;
 fn s(v: &FieldValue) -> String { match v { FieldValue::String(x) => x.to_string(), FieldValue::Null => "<null>".into(), other => format!("{other:?}") } }
 fn list(v: &FieldValue) -> Vec<String> { v.as_slice().expect("list output").iter().map(s).collect() }
@@ -131,6 +131,13 @@ pub(crate) fn c20_grid_introspection_matches_schema() {
         let via_schema: BTreeSet<String> = vrows.iter().map(|r| s(&r[&Arc::from("name") as &Arc<str>])).collect();
         let direct: BTreeSet<String> = rows.iter().map(|r| s(&r[&Arc::from("name") as &Arc<str>])).collect();
         if via_schema != direct { failures.insert(format!("{label}: Schema.vertex_type and VertexType disagree")); }
+        // __typename of every kind of introspection vertex
+        let trows = run(&meta, &schema, r#"{ Schema { __typename @output(name: "s") vertex_type { __typename @output(name: "v") property @fold { __typename @output(name: "p") } edge @fold { __typename @output(name: "e") target { __typename @output(name: "t") } parameter @fold { __typename @output(name: "prm") } } implements @fold { __typename @output(name: "i") } } } }"#);
+        let erows2 = run(&meta, &schema, r#"{ Entrypoint { __typename @output(name: "e") parameter @fold { __typename @output(name: "prm") } target { __typename @output(name: "t") } } }"#);
+        fn flat(v: &FieldValue, out: &mut BTreeSet<String>) { match v { FieldValue::List(xs) => for x in xs.iter() { flat(x, out) }, other => { out.insert(s(other)); } } }
+        let mut seen: BTreeMap<&str, BTreeSet<String>> = BTreeMap::new();
+        for r in trows.iter().chain(erows2.iter()) { for (k, v) in r.iter() { let key = match k.as_ref() { "s" => "Schema", "v" | "t" | "i" => "VertexType", "p" => "Property", "e" => "Edge", "prm" => "EdgeParameter", _ => continue }; flat(v, seen.entry(key).or_default()); } }
+        for (want, got) in &seen { if !(got.is_empty() || (got.len() == 1 && got.contains(*want))) { failures.insert(format!("{label}: __typename of {want} vertices reported as {got:?}")); } }
         // filters on names must only select among what the unfiltered query reports, whatever hints the adapter takes from them
         let templates = [
             r#"{ VertexType { name @output FILTER } }"#, r#"{ Schema { vertex_type { name @output FILTER } } }"#,
